@@ -293,7 +293,7 @@ pub fn all_heap_program() -> Program {
     let inner = Def {
         module: vec!["h".into()],
         name: "Inner".into(),
-        params: vec![ParamDecl { name: "T".into(), skipped: false, cfg: false }],
+        params: vec![ParamDecl { name: "T".into(), skipped: false, cfg: false, uint: false }],
         kind: DefKind::Struct(Style::Named, vec![f("t", Ty::Param(0)), f("v", Ty::Vec(Ty::Param(0).b()))]),
         docs: vec!["Inner docs".into(), "second line".into()],
     };
